@@ -198,8 +198,17 @@ def run_one(sim, params):
             cli.setsockopt(nfc.llcp.SO_RCVBUF, sim.wpick("cli.rw", [(3, 1), (2, 2), (2, 3), (2, 7), (2, 15)])
                            if not contention else sim.pick("cli.rw.c", [1, 1, 2]))
             res = {}
+            # threaded walks: the client may send its first message right after connect() returned, i.e. while the
+            # server's accept() is still handing the new connection over to the service access point
+            early = b"early/%d;" % c if step_fn is None and sim.chance("early.msg", 0.5) else None
+
+            def do_connect(cli=cli, c=c, early=early):
+                cli.connect(40 + c)
+                if early is not None:
+                    res["early.sent"] = cli.send(early, 0)
+                res["con"] = True
             k.spawn(lambda: res.__setitem__("acc", srv.accept()), name="accept%d" % c, daemon=True)
-            k.spawn(lambda: res.__setitem__("con", cli.connect(40 + c)), name="connect%d" % c, daemon=True)
+            k.spawn(do_connect, name="connect%d" % c, daemon=True)
             if step_fn is not None:
                 w5.settle(k)
                 for _ in range(8):
@@ -212,6 +221,15 @@ def run_one(sim, params):
                     if "acc" in res and "con" in res:
                         break
                     kernel.TIME.sleep(0.01)
+            if "acc" in res and "con" in res and early is not None and res.get("early.sent"):
+                sim.probe("early.message")
+                got = bytes(res["acc"].recv()) if res["acc"].poll("recv", 10.0) else None
+                if got is None and not link_down():
+                    raise Violation("lost", "early", "connection %d: the message the client sent right after connect() returned "
+                                    "was accepted by send() but is not returned by recv() on the accepted socket; %r" % (c, desc))
+                if got is not None and got != early:
+                    raise Violation("order", "early", "connection %d: first recv() on the accepted socket returned %r, the client "
+                                    "sent %r; %r" % (c, got[:16], early, desc))
             if "acc" in res and "con" in res:
                 conns.append({"cli_side": cli_side, "srv_side": srv_side, cli_side: cli, srv_side: res["acc"]})
                 ci = len(conns) - 1
